@@ -8,6 +8,7 @@ import CSD.Lemmas.PFCIter
 import CSD.Lemmas.IdIter
 import CSD.Lemmas.FM17
 import CSD.Lemmas.RPDACIter
+import CSD.Lemmas.PFCRange
 
 namespace CSD.Props.C13
 open CSD CSD.PFC
@@ -29,6 +30,16 @@ theorem pfc_table_kth_is_extract (b : Nat) (S : List Str) (hv : validDict S = tr
       PFC.extract (PFC.build b S) k = some T[k - 1]? := by
   obtain ⟨hne, hn, _, _⟩ := validDict_facts hv
   exact ⟨S, table_build b S hne hn, rfl, extract_build b S hn k h1 h2⟩
+
+/-- **Scans starting at any in-bucket offset**: the string iterator over the ID range `[left, right]`
+(`IteratorDictStringPFC` as `extractPrefix` opens it: header copied, `offset − 1` strings decoded, then
+`right − left + 1` calls of `next` across bucket boundaries) yields exactly the members with those IDs, in
+order, and stops there; every read stays inside the text. For every bucket size and every range. -/
+theorem pfc_range_scan_exact (b : Nat) (S : List Str) (hv : validDict S = true) (left right : Nat)
+    (h1 : 1 ≤ left) (h2 : left ≤ right) (h3 : right ≤ S.length) :
+    PFC.scanRange (PFC.build b S) left right = some ((S.drop (left - 1)).take (right - left + 1)) := by
+  obtain ⟨_, hn, _, _⟩ := validDict_facts hv
+  exact scanRange_build b S hn left right h1 h2 h3
 
 /-- ID iterators: a contiguous range is enumerated once each, ascending; the empty
 encoding yields nothing (no read at all: the iterator owns no array). -/
@@ -59,7 +70,11 @@ obligation even if no generated input tells the behaviours apart. -/
 theorem models_match_source_text :
     Generated.body_PFC_ctor = SourceText.body_PFC_ctor ∧
     Generated.body_PFC_getHeader = SourceText.body_PFC_getHeader ∧
-    Generated.body_PFC_decodeNextString = SourceText.body_PFC_decodeNextString := ⟨rfl, rfl, rfl⟩
+    Generated.body_PFC_decodeNextString = SourceText.body_PFC_decodeNextString ∧
+    Generated.body_PFC_extractTable = SourceText.body_PFC_extractTable ∧
+    Generated.body_PFCIter_ctor = SourceText.body_PFCIter_ctor ∧
+    Generated.body_PFCIter_next = SourceText.body_PFCIter_next ∧
+    Generated.body_PFCIter_decodeNext = SourceText.body_PFCIter_decodeNext := ⟨rfl, rfl, rfl, rfl, rfl, rfl, rfl⟩
 
 
 /-! ### FMINDEX -/
